@@ -198,7 +198,8 @@ func (x *prioExec) afterFault() {
 	m := x.mon
 	x.ctl.SetPhase("await-error-after-divider-fault", "C15")
 	deadline := time.Now().Add(prioL)
-	for !x.errClosed && time.Now().Before(deadline) {
+	ended := func() bool { return x.errClosed || (x.ignoreErr && x.outClosed) }
+	for !ended() && time.Now().Before(deadline) {
 		synctest.Wait()
 		x.pull()
 		x.startRelease(x.pickRelease(POp{Mode: "all"}))
@@ -211,11 +212,16 @@ func (x *prioExec) afterFault() {
 	lUnknown := m.faultLUnknown
 	desc := m.faultDesc
 	m.mu.Unlock()
-	if !x.errClosed {
+	if !ended() {
 		x.fail("C15", "no-termination-after-fault", "divider fault (%s): every delivered item was released but Err() was not closed within %s (virtual)", desc, prioL)
 		return
 	}
-	if !x.faultSeen {
+	if x.ignoreErr {
+		// a client that only ranges over Output() and never looks at Err(): termination is the
+		// closure of Output(), and nothing of the discipline may remain after it (the census
+		// follows); the error value itself is looked at by the runs that do read Err()
+		x.res.ErrIgnored = true
+	} else if !x.faultSeen {
 		x.fail("C15", "no-error-reported", "divider fault (%s): the discipline terminated but Err() never yielded ErrDividerBad (values: %v)", desc, x.res.ErrValues)
 	}
 	if !x.sc.simple() && !lUnknown {
@@ -228,7 +234,7 @@ func (x *prioExec) afterFault() {
 			x.fail("C15", "delivery-after-fault", "divider fault (%s): %d items had been received and %d were in the output buffer at the fault, but %d were received in total (expected %d..%d): the discipline kept delivering after the fault or lost what it had sent", desc, r1, l, total, r1+l, hi)
 		}
 	}
-	if x.sc.Ver == "v2" {
+	if x.sc.Ver == "v2" && !x.ignoreErr {
 		if _, st := x.sys.tryRecv(); st != recvClosed {
 			x.fail("C15", "output-open-after-fault", "divider fault (%s): Err() closed but Output() is not closed", desc)
 		}
